@@ -36,4 +36,20 @@ def setStr (b : Binds) (st : Store) (locked : Bool) (mode : InplaceMode) (k : St
     | none => .error .key
     | some dest => if dest.offs.length = vals.length then .ok (b, writeLeaf st dest vals) else .error .shape
 
+/-! ### which indices are views -/
+
+/-- the kinds of items of an index (tensordict/_td.py:_index_tensordict applies `tensor[index]` to every leaf, so
+torch's rule decides: only integers, slices, `None`, `...` and 0-d integer tensors keep the storage) -/
+inductive IxItem where
+  | int | slice | none | ellipsis | int0d      -- basic
+  | list | tensor | mask | range | array       -- advanced (a copy is made)
+  deriving DecidableEq, Repr
+
+def IxItem.basic : IxItem → Bool
+  | .int | .slice | .none | .ellipsis | .int0d => true
+  | _ => false
+
+/-- the class of `td[index]` -/
+def indexClass (ix : List IxItem) : OpClass := if ix.all IxItem.basic then .view else .copy
+
 end TdVerif.C07
